@@ -246,8 +246,38 @@ def _diag(bal):
   return d
 
 
+class ImplHang(BaseException):
+  pass
+
+
+_HANGS = [0]
+
+
 def run_impl(case):
+  """Watchdog around the driver: a balancer that loops forever (e.g. a cyclic _downq list) becomes an
+  observation {'hang': True} instead of a hung check (SIGALRM; the loops under test do not yield)."""
+  import signal
   setup()
+
+  def on_alarm(_sig, _frm):
+    raise ImplHang()
+  try:
+    old = signal.signal(signal.SIGALRM, on_alarm)
+  except ValueError:          # not in the main thread: no watchdog
+    return _run_impl(case)
+  signal.setitimer(signal.ITIMER_REAL, 5.0 if _HANGS[0] < 2 else 1.0)
+  try:
+    return _run_impl(case)
+  except ImplHang:
+    _HANGS[0] += 1
+    _S['tap'].world = None
+    return {'labels': [], 'steps': [], 'skipped': 0, 'opens': [], 'hang': True}
+  finally:
+    signal.setitimer(signal.ITIMER_REAL, 0)
+    signal.signal(signal.SIGALRM, old)
+
+
+def _run_impl(case):
   gevent = _S['gevent']
   w = World(case)
   rnd = _S['rnd']
@@ -512,6 +542,8 @@ def analyse(case, obs):
   reqs = {}               # rid -> dict(nid, done)
   burst_hit = {}
   labels, steps = obs['labels'], obs['steps']
+  if obs.get('hang'):
+    return [({'C03', 'C04', 'C05'}, 'impl-hang', 'the balancer did not return within the watchdog time (endless loop)')]
 
   def new_node(nid, ep, member):
     nodes[nid] = dict(nid=nid, ep=ep, member=member, out=0, st=st0, marked=False, closed=0, close_due=False)
@@ -753,6 +785,8 @@ def _result(lb, st):
 
 
 def to_coq(case, obs):
+  if obs.get('hang'):
+    return None
   labels, steps = obs['labels'], obs['steps']
   exp = []
   for lb, st in zip(labels, steps):
